@@ -253,7 +253,7 @@ def catflip(c, r):
         l, u = 0, len(c)
         while l < u:
             m = (l+u)//2
-            if c[m] < r: l = m+1
+            if c[m] <= r: l = m+1
             else: u = m
         return l if l < len(c) else None
     for i,x in enumerate(c):
